@@ -127,7 +127,14 @@ def run_case(case):
                 except (ValueError, IndexError, NotImplementedError, AttributeError, TypeError):
                     pass  # rejected argument; the round trip must hold regardless
             last_end[i] = snapshot(chip)
-            o.__exit__(None, None, None)
+            # every third block is left through an exception raised by the application inside it (what `with` then passes
+            # to __exit__): "leaving a block powers the radio down" does not depend on how it is left
+            if blk.get("exc", (bi + len(blk["ops"])) % 3 == 2):
+                err = ValueError("application error inside the with-block")
+                o.__exit__(ValueError, err, None)
+                res.label("block-left-through-an-exception")
+            else:
+                o.__exit__(None, None, None)
             if chip.powered() or chip.ce:
                 res.fail("C09/exit-leaves-radio-on", "after __exit__ of %s: PWR_UP=%d CE=%d" % (kind, chip.powered(), chip.ce))
             after_exit = snapshot(chip)
